@@ -111,8 +111,11 @@ RECURSIVE Desc(_, _)
 Desc(o, e) == LET K == Kids(o, e) IN K \cup UNION {Desc(o, c) : c \in K}
 Sub(o, e) == {e} \cup Desc(o, e)
 RECURSIVE Anc(_, _)
+\* a pending result that was cancelled because a handler of an ancestor event timed out (C10 asks for exactly that)
 Anc(o, e) == IF e = 0 \/ e > o.n \/ o.gpar[e] = 0 THEN {} ELSE {o.gpar[e]} \cup Anc(o, o.gpar[e])
 
+TimedOutAncestor(o, e) == \E a \in Anc(o, e) : \E i \in DOMAIN o.snap[a].res : o.snap[a].res[i].err = "Timeout"
+CancelledByTimeout(o, e, i) == o.snap[e].res[i].err = "Cancelled:pending" /\ TimedOutAncestor(o, e)
 AcceptedOn(o, b) == Range(o.acc[b])
 AcceptedAnywhere(o) == UNION {Range(o.acc[b]) : b \in DOMAIN o.acc}
 OpenAct(o, a) == CHOOSE x \in o.open : x.act = a
@@ -164,6 +167,14 @@ C09StructW(o1, changed) ==
           \cup (IF \E i \in DOMAIN s.res : InSeq(e, s.res[i].kids) THEN {W("C09.self_child", e, "", "", 0, "")} ELSE {})
         : e \in changed }
 
+\* C10: when a handler's result becomes TimeoutError, no result of any descendant of its event is left pending
+C10ChildW(o, o1) ==
+  UNION { UNION { {W("C10.child_pending", d, "", o1.snap[e].res[i].h, e, "") :
+                     d \in {x \in Desc(o1, e) : x <= Len(o1.snap) /\ \E j \in DOMAIN o1.snap[x].res : o1.snap[x].res[j].st = "pending"}}
+                : i \in {k \in DOMAIN o1.snap[e].res : o1.snap[e].res[k].err = "Timeout" /\
+                                                        (e > Len(o.snap) \/ k > Len(o.snap[e].res) \/ o.snap[e].res[k].err # "Timeout")} }
+        : e \in 1..Len(o1.snap) }
+
 AfterEvery(cfg, o, o1, ln) ==
   LET changed == {e \in 1..Len(o1.snap) : e > Len(o.snap) \/ o.snap[e] # o1.snap[e]}
       \* record first observed completion
@@ -172,7 +183,7 @@ AfterEvery(cfg, o, o1, ln) ==
                  ELSE IF Complete(o1.snap[e]) THEN <<o1.snap[e]>> ELSE <<>>]
       o2 == [o1 EXCEPT !.fc = fc1]
       o3 == IF \E b \in DOMAIN o.hist : Range(o.hist[b]) \ Range(o1.hist[b]) # {} THEN Bump(o2, "evict") ELSE o2
-  IN AddW(o3, C08W(o, o2) \cup C13W(cfg, o, o2) \cup C09StructW(o2, changed))
+  IN AddW(o3, C08W(o, o2) \cup C13W(cfg, o, o2) \cup C09StructW(o2, changed) \cup C10ChildW(o, o2))
 
 \* ------------------------------------------------------------------------
 \* Disp
@@ -251,14 +262,15 @@ StepEnter(cfg, o, ln) ==
       w2a == IF first /\ ~jump /\ ln.b \notin o.stopped
              THEN {W("C02.fifo", ln.e, ln.b, ln.h, ln.act, ln.byk) : e2 \in
                      {z \in earlier : z # ln.e /\ ~InSeq(z, o.started[ln.b]) /\ Puppets(cfg, ln.b, o.ety[z]) # {}
-                                      /\ ~\E i \in DOMAIN o.snap[z].res : o.snap[z].res[i].b = ln.b /\ o.snap[z].res[i].err = "Cancelled:pending"}}
+                                      /\ ~\E i \in DOMAIN o.snap[z].res : o.snap[z].res[i].b = ln.b /\ CancelledByTimeout(o, z, i)}}
              ELSE {}
       w2n == IF pos = 0 THEN {W("C14.not_accepted", ln.e, ln.b, ln.h, ln.act, "handler entered for an event never accepted on this bus")} ELSE {}
       \* C02 serial: on a serial bus nothing else of this bus is running un-suspended
       w2b == IF IsParallel(cfg, ln.b) THEN {}
              ELSE {W("C02.serial", ln.e, ln.b, ln.h, y.act, ln.byk) : y \in {z \in o.open : z.b = ln.b /\ z.aw = 0}}
       \* C05: between await-begin and the child's completion only the child and its descendants run
-      w5 == {W("C05.unrelated", ln.e, ln.b, ln.h, y.act, ln.byk) :
+      drainerWaiting == \E z \in o.open : z.act = ln.bya /\ z.aw # 0 /\ ~o.snap[z.aw].sig
+      w5 == {W("C05.unrelated", ln.e, ln.b, ln.h, y.act, IF ln.byk = "in" /\ ~drainerWaiting THEN "in_after_done" ELSE ln.byk) :
                y \in {z \in o.open : z.aw # 0 /\ ~Done(o, z.aw) /\ ln.e \notin Sub(o, z.aw) /\ ~SiblingsPar(cfg, x, z)
                                    /\ ~\E z2 \in o.open : z2.act # z.act /\ SiblingsPar(cfg, z2, z) /\ z2.aw # 0 /\ ln.e \in Sub(o, z2.aw)}}
       \* C06: cross-bus mutual exclusion
@@ -438,7 +450,7 @@ StepEnd(cfg, o, ln) ==
       \* ---- C01: every accepted event was delivered to every matching scenario handler of the bus
       w1 == UNION { {W("C01.missing", e, b, h.id, 0, "") :
                        h \in {g \in Puppets(cfg, b, o.ety[e]) : <<b, e, g.id>> \notin o.runs
-                               /\ ~\E i \in ResOf(o.snap[e], g.id, b) : o.snap[e].res[i].err = "Cancelled:pending"}}
+                               /\ ~\E i \in ResOf(o.snap[e], g.id, b) : CancelledByTimeout(o, e, i)}}
                   : <<b, e>> \in {p \in live \X (1..o.n) : InSeq(p[2], o.acc[p[1]])} }
       \* ---- C14: accepted events are processed by the bus
       w14 == {W("C14.never_processed", p[2], p[1], "", 0, IF InSeq(p[2], o.q[p[1]]) THEN "still_queued" ELSE "vanished")
@@ -468,7 +480,6 @@ StepEnd(cfg, o, ln) ==
                         order == SetToSortSeq(got, LAMBDA x, y : FirstOk(x) < FirstOk(y))
                     IN IF Cardinality(entries) # 1 \/ o.disp[first].out # "ok" \/ want \cap o.stopped # {} THEN {}
                        ELSE (IF got # want THEN {W("C07.reach", e, b0, "", 0, "")} ELSE {})
-                         \cup {W("C07.twice", e, b, "", 0, "") : b \in {b2 \in got : Cardinality({i \in DOMAIN o.disp : o.disp[i].e = e /\ o.disp[i].b = b2 /\ o.disp[i].out = "ok"}) > 1}}
                          \cup (IF o.snap[e].path # order THEN {W("C07.path", e, b0, "", 0, "")} ELSE {})
                          \cup {W("C07.results", e, r[1], r[3], 0, "") : r \in {k \in o.runs : k[2] = e /\ ResOf(o.snap[e], k[3], k[1]) = {}}}
                   : e \in 1..o.n }
